@@ -2,7 +2,7 @@
 from harness.common import Harness, Cls, hole_args, text_of, reached, region_active
 from harness import docs
 from oracle.content import content, first_difference, note_text
-from oracle.norm import norm
+from oracle.norm import norm, norm_equiv
 from oracle import ddl
 
 ASSUMPTIONS = [
@@ -111,7 +111,7 @@ def site_roundtrip(site, K, style, cls='quick'):
             return ''
         reached()
         if is_note:
-            if docs.ascii_blanks_only(text) and stored != norm(text):
+            if docs.ascii_blanks_only(text) and not norm_equiv(stored, norm(text)):
                 return 'stored note differs from the normalised text'
         elif stored != text:
             return 'stored text differs from the written text'
@@ -167,6 +167,32 @@ def styles_agree(site, K, cls='quick'):
 LEAF = Cls('ASCII', plus='\n\xa0')
 
 
+def norm_shape():
+    """three-line texts whose indentation widths are symbolic: the blank-only middle line must not count as indentation"""
+    from harness.common import IntRange
+
+    def body(a):
+        from pydbml.tools import strip_empty_lines, remove_indentation
+        x = ' ' * a['n1'] + 'a' + '\n' + ' ' * a['k'] + '\n' + ' ' * a['n2'] + 'b' + ('\n' + ' ' * a['k'] if a['tail'] else '')
+        try:
+            y = remove_indentation(strip_empty_lines(x))
+            z = remove_indentation(strip_empty_lines(y))
+            db = docs.parse("Table t {\n  c int\n  Note: '''" + x + "'''\n}\n")
+        except Exception:
+            return 'normalisation raised'
+        reached()
+        if not norm_equiv(y, norm(x)) or z != y:
+            return 'normalisation differs from the reference normaliser or is not idempotent'
+        if not norm_equiv(db.tables[0].note.text, norm(x)):
+            return 'stored note is not the normalised text'
+        if docs.parse(db.dbml).tables[0].note.text != db.tables[0].note.text:
+            return 'note changes on render + parse'
+        return ''
+
+    return Harness(body, [('n1', IntRange(0, 4)), ('k', IntRange(0, 4)), ('n2', IntRange(0, 4)), ('tail', 'bool')],
+                   describe=lambda a: dict(a), bounds={'shape': "' '*n1 a NL ' '*k NL ' '*n2 b"})
+
+
 def norm_lemma(K):
     """tools: remove_indentation(strip_empty_lines(x)) is idempotent and equals norm(x) for ASCII-blank texts"""
     def body(a):
@@ -180,7 +206,7 @@ def norm_lemma(K):
         reached()
         if z != y:
             return 'normalisation is not idempotent'
-        if docs.ascii_blanks_only(x) and y != norm(x):
+        if docs.ascii_blanks_only(x) and not norm_equiv(y, norm(x)):
             return 'normalisation differs from the reference normaliser'
         return ''
 
@@ -318,6 +344,7 @@ def instances(tier):
     for site in ('table_note_block', 'sticky_note', 'project_note'):
         add(f'rt/{site}/triple/crit/K3', 'site_roundtrip', {'site': site, 'K': 3, 'style': 'triple', 'cls': 'crit'}, 280)
     add('norm_lemma/K3', 'norm_lemma', {'K': 3}, 240)
+    add('norm_shape', 'norm_shape', {}, 280)
     add('sql_note/table/K2', 'sql_note', {'site': 'table_note_inline', 'K': 2}, 240)
     add('sql_note/column/K2', 'sql_note', {'site': 'column_note', 'K': 2}, 240)
     add('sql_expr/K2', 'sql_expression', {'K': 2}, 240)
